@@ -654,4 +654,187 @@ theorem tickLoop_append (now : Nat) (xs ys : List (ConnIn F)) (m : Ctl F) :
   | cons x xs ih => simp only [List.cons_append, tickLoop]; exact ih _
 end gc
 
+/-! ## Round 2 (a): the latch thresholds at exact arithmetic are the literal 55/100 and 25/100 -/
+
+theorem cEnter_R : @cEnter Rat (ratScalar e fin infv) = 55 / 100 := by
+  simp only [cEnter, Scalar.lit, LOSS_DEGRADE_ENTER_num, LOSS_DEGRADE_ENTER_den]
+  decide +kernel
+
+theorem cClear_R : @cClear Rat (ratScalar e fin infv) = 25 / 100 := by
+  simp only [cClear, Scalar.lit, LOSS_DEGRADE_CLEAR_num, LOSS_DEGRADE_CLEAR_den]
+  decide +kernel
+
+theorem High_R (x : Rat) : @High Rat (ratScalar e fin infv) x ↔ (55 : Rat) / 100 < x := by
+  simp only [High, cEnter_R, Scalar.lt, decide_eq_true_eq]
+
+theorem Low_R (x : Rat) : @Low Rat (ratScalar e fin infv) x ↔ x < (25 : Rat) / 100 := by
+  simp only [Low, cClear_R, Scalar.lt, decide_eq_true_eq]
+
+/-! ## Round 2 (b): the per-link body of `tick_all` as a list of ops; reachable controllers -/
+section ctl
+variable {F : Type} [Scalar F]
+
+/-- `conn.bitrate.current_bitrate_bps.max(0.0) as u64` -/
+def connObs (c : ConnIn F) : Nat := Scalar.toU64 (fmax c.bitrate zero)
+
+/-- the ops of the loop body before the tick: the RTT sample (only if `> 0.0`) and the counters -/
+def connPre (c : ConnIn F) (now : Nat) : List (Op F) :=
+  (if Scalar.lt zero c.smoothRtt then [Op.rtt c.smoothRtt now] else []) ++
+    [Op.traffic c.bytesTotal c.nakTotal now]
+
+/-- the (two or three) ops of one loop body -/
+def connOps (c : ConnIn F) (now : Nat) : List (Op F) := connPre c now ++ [Op.tick (connObs c) now]
+
+theorem connStep_eq_tick (s : St F) (c : ConnIn F) (now : Nat) :
+    connStep s c now = tick ((connPre c now).foldl apply s) (connObs c) now := by
+  unfold connStep connPre connObs
+  by_cases h : Scalar.lt (zero : F) c.smoothRtt = true <;> simp [h, apply]
+
+/-- `connStep` = at most three `apply` steps. -/
+theorem connStep_eq_apply (s : St F) (c : ConnIn F) (now : Nat) :
+    connStep s c now = (connOps c now).foldl apply s := by
+  rw [connStep_eq_tick]; simp [connOps, List.foldl_append, apply]
+
+theorem connStep_run (ops : List (Op F)) (c : ConnIn F) (now : Nat) :
+    connStep (run ops) c now = run (ops ++ connOps c now) := by
+  rw [connStep_eq_apply]; simp [run, List.foldl_append]
+
+theorem connPre_run (ops : List (Op F)) (c : ConnIn F) (now : Nat) :
+    (connPre c now).foldl apply (run ops) = run (ops ++ connPre c now) := by
+  simp [run, List.foldl_append]
+
+omit [Scalar F] in
+theorem keeps_refl (s : St F) : Keeps s s := ⟨rfl, rfl, rfl, rfl, rfl, rfl⟩
+
+omit [Scalar F] in
+theorem keeps_trans {a b c : St F} (h1 : Keeps a b) (h2 : Keeps b c) : Keeps a c := by
+  obtain ⟨k1, k2, k3, k4, k5, k6⟩ := h1
+  obtain ⟨e1, e2, e3, e4, e5, e6⟩ := h2
+  exact ⟨e1.trans k1, e2.trans k2, e3.trans k3, e4.trans k4, e5.trans k5, e6.trans k6⟩
+
+/-- the RTT sample and the counter snapshot of the loop body leave cap, state and latch untouched -/
+theorem keeps_connPre (s : St F) (c : ConnIn F) (now : Nat) :
+    Keeps s ((connPre c now).foldl apply s) := by
+  unfold connPre
+  cases h : Scalar.lt (zero : F) c.smoothRtt
+  · simp only [Bool.false_eq_true, if_false, List.nil_append, List.foldl_cons, List.foldl_nil, apply]
+    exact keeps_observeTraffic _ _ _ now
+  · simp only [if_true, List.cons_append, List.nil_append, List.foldl_cons, List.foldl_nil, apply]
+    exact keeps_trans (keeps_recordRtt s _ now) (keeps_observeTraffic _ _ _ now)
+
+/-- Controllers reachable from `LinkCcController::new()` by any sequence of `tick_all` calls: any
+connection slices (ids may even repeat within a call), any time stamps. -/
+inductive CtlReach : Ctl F → Prop
+  | empty : CtlReach []
+  | tick {m : Ctl F} (conns : List (ConnIn F)) (now : Nat) : CtlReach m → CtlReach (tickAll m conns now)
+
+def AllEntries (P : St F → Prop) (m : Ctl F) : Prop := ∀ p ∈ m, P p.2
+
+omit [Scalar F] in
+theorem get_mem (m : Ctl F) (id : Nat) (s : St F) (h : m.get id = some s) : ∃ p ∈ m, p.2 = s := by
+  simp only [Ctl.get, Option.map_eq_some_iff] at h
+  obtain ⟨p, hp, rfl⟩ := h
+  exact ⟨p, List.mem_of_find?_eq_some hp, rfl⟩
+
+omit [Scalar F] in
+theorem allEntries_set (P : St F → Prop) (m : Ctl F) (id : Nat) (s : St F)
+    (hm : AllEntries P m) (hs : P s) : AllEntries P (m.set id s) := by
+  induction m with
+  | nil => intro p hp; simp [Ctl.set] at hp; subst hp; exact hs
+  | cons kv rest ih =>
+    obtain ⟨k, v⟩ := kv
+    have hr : AllEntries P rest := fun p hp => hm p (List.mem_cons_of_mem _ hp)
+    simp only [Ctl.set]
+    split
+    · intro p hp
+      rcases List.mem_cons.1 hp with hp | hp
+      · subst hp; exact hs
+      · exact hr p hp
+    · intro p hp
+      rcases List.mem_cons.1 hp with hp | hp
+      · subst hp; exact hm _ List.mem_cons_self
+      · exact ih hr p hp
+
+theorem allEntries_getD (P : St F → Prop) (m : Ctl F) (id : Nat)
+    (hm : AllEntries P m) (hd : P St.default) : P ((m.get id).getD St.default) := by
+  cases h : m.get id with
+  | none => exact hd
+  | some s => obtain ⟨p, hp, rfl⟩ := get_mem m id s h; exact hm p hp
+
+theorem allEntries_tickLoop (P : St F → Prop) (hd : P St.default)
+    (hstep : ∀ s c now, P s → P (connStep s c now)) (now : Nat) (cs : List (ConnIn F)) (m : Ctl F)
+    (hm : AllEntries P m) : AllEntries P (tickLoop m now cs) := by
+  induction cs generalizing m with
+  | nil => exact hm
+  | cons c cs ih =>
+    simp only [tickLoop]
+    exact ih _ (allEntries_set P m _ _ hm (hstep _ c now (allEntries_getD P m c.id hm hd)))
+
+theorem allEntries_tickAll (P : St F → Prop) (hd : P St.default)
+    (hstep : ∀ s c now, P s → P (connStep s c now)) (now : Nat) (cs : List (ConnIn F)) (m : Ctl F)
+    (hm : AllEntries P m) : AllEntries P (tickAll m cs now) := by
+  intro p hp
+  simp only [tickAll] at hp
+  exact allEntries_tickLoop P hd hstep now cs m hm p (List.mem_filter.1 hp).1
+
+/-- Induction principle for reachable controllers: a predicate on per-link states that holds at the
+default state and is preserved by the loop body holds for every entry. -/
+theorem CtlReach.allEntries (P : St F → Prop) (hd : P St.default)
+    (hstep : ∀ s c now, P s → P (connStep s c now)) {m : Ctl F} (h : CtlReach m) : AllEntries P m := by
+  induction h with
+  | empty => intro p hp; simp at hp
+  | tick conns now _ ih => exact allEntries_tickAll P hd hstep now conns _ ih
+
+/-- `s` is the state after some history of ops from the default state -/
+def IsRun (s : St F) : Prop := ∃ ops : List (Op F), s = run ops
+
+theorem isRun_default : IsRun (St.default : St F) := ⟨[], rfl⟩
+
+theorem isRun_connStep (s : St F) (c : ConnIn F) (now : Nat) (h : IsRun s) : IsRun (connStep s c now) := by
+  obtain ⟨ops, rfl⟩ := h
+  exact ⟨ops ++ connOps c now, connStep_run ops c now⟩
+
+/-- Every entry of a reachable controller is the state after a history of ops. -/
+theorem CtlReach.entry_run {m : Ctl F} (h : CtlReach m) (id : Nat) (s : St F)
+    (hg : m.get id = some s) : ∃ ops : List (Op F), s = run ops := by
+  obtain ⟨p, hp, rfl⟩ := get_mem m id s hg
+  exact h.allEntries IsRun isRun_default isRun_connStep p hp
+
+/-- … and so is the state the loop body starts from (`entry().or_default()`). -/
+theorem CtlReach.getD_run {m : Ctl F} (h : CtlReach m) (id : Nat) :
+    ∃ ops : List (Op F), (m.get id).getD St.default = run ops :=
+  allEntries_getD IsRun m id (h.allEntries IsRun isRun_default isRun_connStep) isRun_default
+
+/-- The entry of a link that occurs exactly once in the call, after the call. -/
+theorem tickAll_get_present (m : Ctl F) (pre post : List (ConnIn F)) (c : ConnIn F) (now : Nat)
+    (hpre : ∀ d ∈ pre, d.id ≠ c.id) (hpost : ∀ d ∈ post, d.id ≠ c.id) :
+    (tickAll m (pre ++ c :: post) now).get c.id =
+      some (connStep ((m.get c.id).getD St.default) c now) := by
+  simp only [tickAll]
+  rw [get_filter (tickLoop m now (pre ++ c :: post)) (fun k => (pre ++ c :: post).any (·.id == k)) c.id]
+  have hany : (pre ++ c :: post).any (·.id == c.id) = true := by simp
+  simp only [hany, if_true]
+  rw [tickLoop_append now pre (c :: post) m]
+  simp only [tickLoop]
+  rw [tickLoop_get_other _ now post c.id hpost, get_set_same]
+  rw [tickLoop_get_other m now pre c.id hpre]
+end ctl
+
+/-! ## Round 2 (c): a concrete exact-arithmetic instance for in-Lean reachability witnesses -/
+
+/-- `exp := 0` (so the loss-EWMA weight `alpha = 1 − exp(…)` is 1 and the EWMA equals the
+instantaneous loss), `is_finite x := (x ≠ −1)`, `INFINITY := −1`. -/
+@[reducible] def witScalar : Scalar Rat := ratScalar (fun _ => 0) (fun x => decide (x ≠ -1)) (-1)
+
+/-- the instance satisfies the hypothesis `hfin` of the exact-arithmetic theorems -/
+theorem witScalar_fin : ∀ x : Rat, 0 < x → (fun x : Rat => decide (x ≠ -1)) x = true := by
+  intro x hx; simp; grind
+
+/-- a connection with id 7 and a smoothed RTT of 10 ms -/
+def witConn (bytes : Nat) (nak : Int) (bitrate : Rat) : ConnIn Rat :=
+  { id := 7, smoothRtt := 10, bytesTotal := bytes, nakTotal := nak, bitrate := bitrate }
+
+/-- a second connection (id 9, no RTT estimate yet) -/
+def witConn9 : ConnIn Rat := { id := 9, smoothRtt := 0, bytesTotal := 0, nakTotal := 0, bitrate := 0 }
+
 end Srtla.LinkCc
